@@ -1,6 +1,70 @@
+(* C13 — array indexing and slicing follow Python nested-list semantics.
+   Only final statements here; proofs are in Array/SliceProofs.v, SliceMain.v. *)
 From Coq Require Import ZArith List.
-From Cspuz Require Import Lib.PyErr Array.Slice.
+From Cspuz Require Import Lib.PyErr Array.Slice Array.SliceProofs Array.SliceMain.
+Import ListNotations.
+Open Scope Z_scope.
+
+(* For every element type, every shape (h, w) (0 included), every rectangular
+   list of lists [rows] and every key — an int or slice (a[k]), a pair of
+   ints/slices with arbitrary start/stop/step (negative, out of range, None),
+   or a list of coordinate pairs — the model of Array2D.__getitem__ applied to
+   the row-major data returns exactly what the nested-list specification returns:
+   same elements, same order, same result kind and shape, same error kind. *)
+Theorem getitem_eq_spec :
+  forall (A : Type) (h w : Z) (rows : list (list A)) (k : key2),
+    rect h w rows ->
+    getitem2 h w (concat rows) k = spec_getitem2 h w rows k.
+Proof. intros A h w rows k H. exact (getitem2_eq_spec h w rows H k). Qed.
+Print Assumptions getitem_eq_spec.
+
+(* the length computed by _range_size is the length of range(start, stop, step),
+   and range() enumerates start + step*k *)
+Theorem range_size_is_range_length :
+  forall s e st, st <> 0 ->
+    range_size s e st = Ok (rlen s e st) /\
+    py_range s e st = map (fun k => s + st * k) (zseq 0 (Z.to_nat (rlen s e st))).
+Proof. intros s e st H. split; [exact (range_size_rlen s e st H) | exact (py_range_spec s e st H)]. Qed.
+Print Assumptions range_size_is_range_length.
+
+(* every position a slice selects lies inside the axis: slicing never raises *)
+Theorem slice_positions_in_axis :
+  forall len a b c s e st k, 0 <= len -> slice_indices len a b c = Ok (s, e, st) ->
+    0 <= k < rlen s e st -> 0 <= s + st * k < len.
+Proof. exact slice_indices_in_range. Qed.
+Print Assumptions slice_positions_in_axis.
+
+(* 1-D arrays delegate to the Python list *)
+Theorem getitem1_is_list_indexing :
+  forall (A : Type) (data : list A),
+    (forall i, getitem1 data (KInt i) = rmap RScalar (py_index data i)) /\
+    (forall a b c, getitem1 data (KSlice a b c) = rmap R1 (py_slice data a b c)).
+Proof.
+  intros A data; split; intros; cbn [getitem1];
+    match goal with |- bind ?x _ = _ => destruct x; reflexivity end.
+Qed.
+Print Assumptions getitem1_is_list_indexing.
+
+(* flatten / reshape keep the row-major data untouched *)
 Theorem reshape_row_major : forall (A : Type) (data : list A) h w r,
   reshape data h w = Ok r -> r = R2 h w data /\ py_len data = h * w.
 Proof. intros A data h w r; unfold reshape; destruct (Z.eqb_spec (py_len data) (h * w)); intros H; inversion H; auto. Qed.
 Print Assumptions reshape_row_major.
+
+Theorem reshape_rejects : forall (A : Type) (data : list A) h w,
+  py_len data <> h * w -> reshape data h w = Err ValueError.
+Proof. intros A data h w H; unfold reshape; destruct (Z.eqb_spec (py_len data) (h * w)); [contradiction|reflexivity]. Qed.
+Print Assumptions reshape_rejects.
+
+Theorem flatten_row_major : forall (A : Type) h w (rows : list (list A)),
+  rect h w rows -> flatten2 h w (concat rows) = concat rows.
+Proof. reflexivity. Qed.
+Print Assumptions flatten_row_major.
+
+(* non-vacuity: a concrete 2x3 array, a reversed row slice with an integer column *)
+Example getitem_example :
+  rect 2 3 [[0; 1; 2]; [3; 4; 5]] /\
+  getitem2 2 3 (concat [[0; 1; 2]; [3; 4; 5]]) (K2 (KSlice None None (Some (-1))) (KInt 1)) = Ok (R1 [4; 1]) /\
+  getitem2 2 3 (concat [[0; 1; 2]; [3; 4; 5]]) (K2 (KInt 0) (KSlice (Some 7) None (Some (-2)))) = Ok (R1 [2; 0]) /\
+  getitem2 2 3 (concat [[0; 1; 2]; [3; 4; 5]]) (K2 (KInt 2) (KInt 0)) = Err IndexError.
+Proof. unfold rect. repeat split; try (vm_compute; reflexivity); try (vm_compute; discriminate); repeat constructor. Qed.
